@@ -101,8 +101,11 @@ Inductive act :=
 | TimerFire            (* the select's timer channel becomes ready *)
 | CtxCancel            (* the parent context is cancelled *)
 | JobReturn            (* the running jobFunc returns *)
-| ExtDelete            (* another goroutine executes delete(s.jobs, name) for this name (an older
-                          same-name job whose ctx/timer branch runs late) *)
+| ExtDelete            (* another goroutine executes delete(s.jobs, name) for this name.  In the tree as
+                          found an older same-name job whose ctx/timer branch ran late did exactly that
+                          (delete by name); since the removeJob repair a goroutine removes the name only
+                          while it still refers to its own job, so this action no longer has a source in
+                          the code.  It is kept: every theorem holds even under it. *)
 | RunLookup            (* a RunJob call executes its jobsMutex section *)
 | CancelLookup         (* a CancelJob call executes its jobsMutex section *)
 (* thread steps *)
